@@ -1,14 +1,20 @@
 #!/bin/bash
 # runs every claimed check against every kept seeded change (scratch copy) and prints the exit-code matrix
+# (parallel: one result file per pair under a scratch directory that is removed at the end)
 cd /verif
 PROPS=$(python3 -c "import json; print(' '.join(c['property_id'] for c in json.load(open('MANIFEST.json'))['checks']))")
+OUT=$(mktemp -d /tmp/gsa-seedmatrix-XXXXXX)
+for d in seeded/*/; do s=$(basename $d); for p in $PROPS; do echo "$s $p"; done; done | \
+  xargs -P 14 -L 1 bash -c './selftest/run.py --patch seeded/$0/patch.diff --prop $1 > '$OUT'/$0.$1.out 2>&1'
 printf "%-10s" seed; for p in $PROPS; do printf "%4s" $p; done; echo
 for d in seeded/*/; do
   s=$(basename $d)
   printf "%-10s" $s
   for p in $PROPS; do
-    rc=$(./selftest/run.py --patch $d/patch.diff --prop $p 2>&1 | grep "^exit" | cut -d' ' -f2)
+    rc=$(grep "^exit" $OUT/$s.$p.out | cut -d' ' -f2)
+    if grep -q "FAILED\|rejects\|can't find file" $OUT/$s.$p.out; then rc="P$rc"; fi
     printf "%4s" "$rc"
   done
   echo
 done
+rm -rf $OUT
